@@ -25,14 +25,16 @@
 (***************************************************************************)
 EXTENDS FmtDoc, Integers, Json
 
-CONSTANTS DocSet,       \* "unit" | "multi" | "group"
-          CfgSet,       \* "default" | "singles" | "pairs" | "comment"
-          MaxComments,  \* 0, 1 or 2 comments per document
-          OnlyDocumented, \* place comments in documented gaps only
-          Specials      \* also place #FASTLY / falco-ignore / @scope texts (leading gaps)
+\* A run explores a set of plans; a plan names a document family, a configuration set and the comment placements:
+\*   doc  "unit" | "esc" | "multi" | "multi2" | "group" | "group2" | "props" | "sortdocs"
+\*   cfg  "default" | "singles" | "pairs" | "sempairs" | "comment" | "style" | "style3" | "align" | ... | "any"
+\*   mc   0, 1 or 2 comments per document;  od  documented gaps only;  sp  also the special spellings and texts
+CONSTANT Plans
+DefaultPlans == {[doc |-> "unit", cfg |-> "singles", mc |-> 0, od |-> TRUE, sp |-> FALSE]}
 
-VARIABLES doc, cfg, cm, phase, ast, cms
-vars == <<doc, cfg, cm, phase, ast, cms>>
+VARIABLES plan, doc, cfg, cm, phase, ast, cms
+DocSet == plan.doc   CfgSet == plan.cfg   MaxComments == plan.mc   OnlyDocumented == plan.od   Specials == plan.sp
+vars == <<plan, doc, cfg, cm, phase, ast, cms>>
 
 (***************************************************************************)
 (* Configurations (config/config.go FormatConfig, defaults from its tags)  *)
@@ -79,6 +81,13 @@ Cfgs == CASE CfgSet = "default" -> {Default}
           [] CfgSet = "sort"    -> {Default, With(Default, <<"sort_declaration", TRUE>>), With(Default, <<"align_trailing_comment", TRUE>>),
                                     With(With(Default, <<"sort_declaration", TRUE>>), <<"sort_declaration_property", TRUE>>),
                                     With(With(Default, <<"sort_declaration", TRUE>>), <<"comment_style", "slash">>)}
+          [] CfgSet = "align2"  -> {Default, With(With(Default, <<"align_trailing_comment", TRUE>>), <<"trailing_comment_width", 3>>)}
+          [] CfgSet = "propcfg" -> {Default, With(Default, <<"sort_declaration_property", TRUE>>), With(Default, <<"align_declaration_property", TRUE>>),
+                                    With(Default, <<"align_trailing_comment", TRUE>>),
+                                    With(With(With(Default, <<"sort_declaration_property", TRUE>>), <<"align_declaration_property", TRUE>>),
+                                         <<"align_trailing_comment", TRUE>>)}
+          [] CfgSet = "propcfg2" -> {Default, With(With(With(Default, <<"sort_declaration_property", TRUE>>), <<"align_declaration_property", TRUE>>),
+                                                   <<"align_trailing_comment", TRUE>>)}
           [] CfgSet = "sortonly" -> {With(Default, <<"sort_declaration", TRUE>>),
                                      With(With(Default, <<"sort_declaration", TRUE>>), <<"sort_declaration_property", TRUE>>)}
           [] CfgSet = "sempairs" -> {Default} \cup {With(With(Default, d1), d2) : d1 \in SemPairDeviations, d2 \in SemPairDeviations}
@@ -151,9 +160,10 @@ ReqEquiv(in, out, c) ==
 \* lines.go DeclarationPropertyLines.Sort: sort.Slice (insertion sort below 12 elements) with
 \*   less(i, j) == ~isObject(i) /\ Key(i) < Key(j)
 \* keys of the generated documents, in byte order of the printed key
-KeyOrder == <<"\"a\"", "\"b\"", "\"k e\"", ".backend", ".connect_timeout", ".host", ".port", ".probe", ".quorum", ".request",
+KeyOrder == <<"\"a\"", "\"b\"", "\"k%20e\"", ".backend", ".connect_timeout", ".host", ".port", ".probe", ".quorum", ".request",
               ".retries", ".ssl", ".threshold", ".weight">>
-KeyText(p) == IF p.k = "tprop" THEN "\"" \o p.key \o "\"" ELSE "." \o p.key
+\* the printed key of a table line is the source literal (escapes kept)
+KeyText(p) == IF p.k = "tprop" THEN (IF p.key = "k e" THEN "\"k%20e\"" ELSE "\"" \o p.key \o "\"") ELSE "." \o p.key
 KeyRank(p) == CHOOSE i \in 1..Len(KeyOrder) : KeyOrder[i] = KeyText(p)
 IsObj(p) == p.k = "dbackend" \/ (p.k = "prop" /\ p.value.k = "probe")
 \* the key of a probe line is ".probe", the key of a director backend object is its text "{ ... }" ('{' sorts after '.')
@@ -255,6 +265,8 @@ Docs == CASE DocSet = "unit"   -> UnitDocs
           [] DocSet = "multi2" -> MultiDocs(2)
           [] DocSet = "group"  -> GroupDocs(2) \cup GroupDocs(3)
           [] DocSet = "group2" -> GroupDocs(2)
+          [] DocSet = "esc"    -> EscDocs
+          [] DocSet = "props"  -> PropDocs
           [] DocSet = "sortdocs" -> {d \in MultiDocs(2) : \A i \in DOMAIN d.ds : ~d.ds[i].a.p_blank}
 Eligible(gs) == {i \in DOMAIN gs : (~OnlyDocumented) \/ gs[i].d}
 OneAt(gs, i) ==
@@ -292,7 +304,7 @@ Decorated(d, pl) ==
 (* Behaviour                                                               *)
 (***************************************************************************)
 \* a document is picked first, then (in parallel over the documents) a configuration and a comment placement
-Init == /\ doc \in Docs /\ cfg = Default /\ cm = <<>>
+Init == /\ plan \in Plans /\ doc \in Docs /\ cfg = Default /\ cm = <<>>
         /\ phase = "doc" /\ ast = Decorated(doc, <<>>) /\ cms = <<>>
 \* simulation mode (CfgSet = "any"): every option drawn independently, a random placement
 RandomCfg ==
@@ -308,13 +320,13 @@ Choose == /\ phase = "doc" /\ phase' = "src"
           /\ IF CfgSet = "any" THEN cfg' = RandomCfg /\ cm' = RandomElement(Placements(doc))
                                 ELSE cfg' \in Cfgs /\ cm' \in Placements(doc)
           /\ cms' = cm' /\ ast' = Decorated(doc, cm')
-          /\ UNCHANGED doc
+          /\ UNCHANGED <<plan, doc>>
 
 Format == /\ phase \in {"src", "fmt1"}
           /\ ast' = Normalize(ast, cfg)
           /\ cms' = Restyle(cms, cfg)
           /\ phase' = IF phase = "src" THEN "fmt1" ELSE "fmt2"
-          /\ UNCHANGED <<doc, cfg, cm>>
+          /\ UNCHANGED <<plan, doc, cfg, cm>>
 Next == Choose \/ Format
 Spec == Init /\ [][Next]_vars
 
